@@ -511,6 +511,9 @@ func (en *Engine) specLvalComps(e *SExpr, env map[string]types.Type, out compSet
 		if t == nil {
 			return
 		}
+		if sl, ok := t.Underlying().(*types.Slice); ok && e.X.Kind == SSlice {
+			t = sl.Elem() // s[*].F
+		}
 		if p, ok := t.Underlying().(*types.Pointer); ok {
 			t = p.Elem()
 		}
